@@ -10,4 +10,9 @@ CONSTANTS
   Video <- Vid2
   NoBtrt <- T2
   RecordHist = FALSE
+  FixBufResize = FALSE
+  FixCtrResize = FALSE
+  FixDropBound = FALSE
+  FixDeriveGuards = FALSE
+  FixLateTrack = FALSE
 INVARIANTS NoPanicCtrAdd
